@@ -165,18 +165,17 @@ func (m recoveryMessage) EncodeBinary(w *gob.Encoder) error {
 		if err := m.prepareRequest.(Serializable).EncodeBinary(w); err != nil {
 			return err
 		}
+	}
+	if m.preparationHash == nil {
+		if err := w.Encode(0); err != nil {
+			return err
+		}
 	} else {
-		if m.preparationHash == nil {
-			if err := w.Encode(0); err != nil {
-				return err
-			}
-		} else {
-			if err := w.Encode(crypto.Uint256Size); err != nil {
-				return err
-			}
-			if err := w.Encode(m.preparationHash); err != nil {
-				return err
-			}
+		if err := w.Encode(crypto.Uint256Size); err != nil {
+			return err
+		}
+		if err := w.Encode(m.preparationHash); err != nil {
+			return err
 		}
 	}
 	return w.Encode(&recoveryMessageAux{
@@ -198,23 +197,22 @@ func (m *recoveryMessage) DecodeBinary(r *gob.Decoder) error {
 		if err := m.prepareRequest.(Serializable).DecodeBinary(r); err != nil {
 			return err
 		}
-	} else {
-		var l int
-		if err := r.Decode(&l); err != nil {
-			return err
-		}
-		if l != 0 {
-			if l == crypto.Uint256Size {
-				m.preparationHash = new(crypto.Uint256)
-				if err := r.Decode(m.preparationHash); err != nil {
-					return err
-				}
-			} else {
-				return errors.New("wrong crypto.Uint256 length")
+	}
+	var l int
+	if err := r.Decode(&l); err != nil {
+		return err
+	}
+	if l != 0 {
+		if l == crypto.Uint256Size {
+			m.preparationHash = new(crypto.Uint256)
+			if err := r.Decode(m.preparationHash); err != nil {
+				return err
 			}
 		} else {
-			m.preparationHash = nil
+			return errors.New("wrong crypto.Uint256 length")
 		}
+	} else {
+		m.preparationHash = nil
 	}
 
 	aux := new(recoveryMessageAux)
